@@ -25,8 +25,9 @@ ASSUMPTIONS = [
     "arguments are integers (None for an absent optional argument)",
     "the legacy servo_timeout / queryVoltage version probe 'V\\r' is not part of the emitted command and is "
     "excluded from the comparison",
-    "for motors_enable the statement fixes the final EM command; the preparatory commands are only required "
-    "to be among CU,50,0 / QE / EM,r2,r2",
+    "for motors_enable the statement fixes the final EM command; what precedes it depends on the board's state and "
+    "is only required to be among the documented preparations of the request at hand: CU,50,0 when exactly one "
+    "motor is requested, QE / EM,r2,r2 when only motor 2 is; nothing for both-on or both-off",
 ]
 REQUIRED_CLASSES = ["nontrivial", "optional_zero", "optional_absent", "optional_nonzero", "pause>750",
                     "pause<=0", "clamped", "lm_suppressed", "lm_sent", "cross_layer", "no_port", "sequence",
@@ -323,6 +324,18 @@ def body(ctx, case):
             ctx.fail("%s recorded an error against an acknowledging device: %r" % (what, obj.err), case)
 
 
+def motors_allowed(c1, c2):
+    """What may precede the final EM of motors_enable: CU,50,0 (the documented switch that lets one motor be
+    enabled alone) only when exactly one motor is requested, and the resolution pre-set of the motor-2-only case
+    (QE to read the scale in use, EM,r2,r2 to set it) only in that case; otherwise nothing."""
+    allowed = set()
+    if (c1 == 0) != (c2 == 0):
+        allowed.add("CU,50,0\r")
+    if c1 == 0 and c2 != 0:
+        allowed |= {"QE\r", "EM,%d,%d\r" % (c2, c2)}
+    return allowed
+
+
 def motors_body(ctx, case):
     r1, r2, prior = case["r1"], case["r2"], case["prior"]
     board = Board("ebb3", lenient=False)
@@ -337,10 +350,11 @@ def motors_body(ctx, case):
     what = "motors_enable(%d, %d) from board state %r" % (r1, r2, prior)
     if not got or got[-1] != "EM,%d,%d\r" % (c1, c2):
         ctx.fail("%s: last command %r, expected 'EM,%d,%d'" % (what, got[-1:] and got[-1], c1, c2), case)
-    allowed = {"CU,50,0\r", "QE\r", "EM,%d,%d\r" % (c2, c2)}
+    allowed = motors_allowed(c1, c2)
     extra = [g for g in got[:-1] if g not in allowed]
     if extra:
-        ctx.fail("%s: unexpected extra command(s) %r" % (what, extra), case)
+        ctx.fail("%s: unexpected extra command(s) %r before the final EM (only %r may precede it for this request)"
+                 % (what, extra, sorted(allowed)), case)
     if obj.err is not None:
         ctx.fail("%s recorded an error: %r" % (what, obj.err), case)
 
@@ -371,7 +385,7 @@ def sequence_body(ctx, case):
             call_sut(obj.motors_enable, *args)
             got = texts(port.writes[before:])
             c1, c2 = clamp(args[0]), clamp(args[1])
-            allowed = {"CU,50,0\r", "QE\r", "EM,%d,%d\r" % (c2, c2)}
+            allowed = motors_allowed(c1, c2)
             if not got or got[-1] != "EM,%d,%d\r" % (c1, c2) or any(g not in allowed for g in got[:-1]):
                 ctx.fail("after %r, EBBMotionWrap.motors_enable%r wrote %r; expected 'EM,%d,%d' last, preceded "
                          "only by commands from %r" % (done, tuple(args), got, c1, c2, sorted(allowed)), case)
